@@ -164,7 +164,7 @@ func (fr *Frame) calleeEffects(com *ssa.CallCommon) effect {
 		if con.Pure || con.Benign || modifiesNothing(con) || con.AssumeBenign {
 			return effNone
 		}
-		if modifiesArgs(con) {
+		if modifiesArgs(con) || len(modifiesPointees(con)) > 0 {
 			return effArgs
 		}
 		return effAll
@@ -174,6 +174,19 @@ func (fr *Frame) calleeEffects(com *ssa.CallCommon) effect {
 
 func modifiesArgs(con *Contract) bool {
 	return len(con.Modifies) == 1 && con.Modifies[0] == "args"
+}
+
+// modifiesPointees: `modifies *p, *q`: only the objects the named pointer parameters point to change.
+func modifiesPointees(con *Contract) []string {
+	var out []string
+	for _, m := range con.Modifies {
+		if strings.HasPrefix(m, "*") {
+			out = append(out, strings.TrimSpace(m[1:]))
+		} else {
+			return nil
+		}
+	}
+	return out
 }
 
 func modifiesNothing(con *Contract) bool {
@@ -186,6 +199,10 @@ type callArgs struct {
 	types []types.Type
 	names []string
 	outs  []copyBack
+	// pointers passed inside interface values (json.Unmarshal(data, &v)): argument index -> pointer
+	ifacePtr  map[int]Term
+	ifaceElem map[int]types.Type
+	ifaceOpaque bool // an interface argument of unknown origin (may hold a pointer)
 }
 
 type copyBack struct {
@@ -207,8 +224,19 @@ func (fr *Frame) doCall(in ssa.Instruction, com *ssa.CallCommon, st *State, isGo
 		argVals = append(argVals, com.Value)
 	}
 	argVals = append(argVals, com.Args...)
-	for _, a := range argVals {
+	ca.ifacePtr, ca.ifaceElem = map[int]Term{}, map[int]types.Type{}
+	for ai, a := range argVals {
 		r := fr.val(a, st)
+		if _, isIface := a.Type().Underlying().(*types.Interface); isIface && !(com.IsInvoke() && ai == 0) {
+			if mi, ok := a.(*ssa.MakeInterface); ok {
+				if pt, ok := mi.X.Type().Underlying().(*types.Pointer); ok {
+					ca.ifacePtr[ai] = fr.term(mi.X, st)
+					ca.ifaceElem[ai] = pt.Elem()
+				}
+			} else if _, isConst := a.(*ssa.Const); !isConst {
+				ca.ifaceOpaque = true
+			}
+		}
 		ca.vals = append(ca.vals, r)
 		ca.types = append(ca.types, a.Type())
 		if len(r.T) == 1 {
@@ -445,20 +473,56 @@ func (fr *Frame) contractCall(con *Contract, key string, sig *types.Signature, c
 			res.T = append(res.T, fr.pureApp(con, key, i, ca, sig, st))
 		}
 	} else {
-		if modifiesArgs(con) {
-			// only the objects directly pointed to by pointer arguments may change
-			done := map[string]bool{}
-			for _, o := range ca.outs {
-				fr.write(o.l, st, c.freshOfType("out", o.l.typ))
-				done[o.p.S] = true
+		if names := modifiesPointees(con); len(names) > 0 || modifiesArgs(con) {
+			// only the objects directly pointed to by (the named) pointer arguments may change
+			allowed := func(i int) bool {
+				if len(names) == 0 {
+					return true
+				}
+				for _, n := range names {
+					if i < len(ca.names) && ca.names[i] == n {
+						return true
+					}
+				}
+				return false
 			}
-			for i, t := range ca.terms {
-				pt, ok := ca.types[i].Underlying().(*types.Pointer)
-				if !ok || done[t.S] {
+			if ca.ifaceOpaque && len(names) == 0 {
+				// an interface argument may carry a pointer we cannot see: fall back to havoc
+				c.havocAll(st)
+			}
+			for i, p := range ca.ifacePtr {
+				if !allowed(i) {
 					continue
 				}
+				l := c.ptrLVal(p, ca.ifaceElem[i])
+				fr.write(l, st, c.freshOfType("out", ca.ifaceElem[i]))
+			}
+			for i, t := range ca.terms {
+				if sl, isSlice := ca.types[i].Underlying().(*types.Slice); isSlice && allowed(i) {
+					// the elements of a slice argument may change (its backing array gets arbitrary contents)
+					es := c.sortOf(sl.Elem())
+					k := c.regElem(es)
+					st.set(k, c.sc.define("elems", sto(c.get(st, k), slPtr(t), c.sc.fresh("out_elems", arraySort(c.sc.idxSort(), es)))))
+					c.heapWritten(st)
+					continue
+				}
+				pt, ok := ca.types[i].Underlying().(*types.Pointer)
+				if !ok || !allowed(i) {
+					continue
+				}
+				// the pointee gets an arbitrary new value; postconditions constrain it
+				var back *copyBack
+				for k := range ca.outs {
+					if ca.outs[k].p.S == t.S {
+						back = &ca.outs[k]
+					}
+				}
 				l := c.ptrLVal(t, pt.Elem())
-				fr.write(l, st, c.freshOfType("out", pt.Elem()))
+				nv := c.freshOfType("out", pt.Elem())
+				fr.write(l, st, nv)
+				if back != nil {
+					fr.pendingOuts = append(fr.pendingOuts, *back)
+				}
 			}
 		} else if con.HO != "" {
 			c.assumeNote("higher-order summary (assumed): " + shortKey(key) + " affects caller-visible memory only by invoking its function arguments (" + con.HO + ")")
@@ -515,6 +579,11 @@ func (fr *Frame) contractCall(con *Contract, key string, sig *types.Signature, c
 		}
 		c.assumeG(t)
 	}
+	// materialised addresses of locals / interior locations: read the callee's result back
+	for _, o := range fr.pendingOuts {
+		fr.copyOut(o.l, o.p, st)
+	}
+	fr.pendingOuts = nil
 	return res, nil
 }
 
